@@ -53,6 +53,8 @@ def shards(tier, seed):
             rnd.shuffle(rp)
             rnd.shuffle(cp)
             out.append({"kind": "permuted", "sizes": v, "rperm": rp, "cperm": cp})
+    # storage-type adjunct (concrete; object arrays have no integer storage): integer-typed matrices
+    out.append({"kind": "dtype"})
     k = 8 if tier == "quick" else 16
     return [{"cases": out[i::k]} for i in range(k)]
 
@@ -146,9 +148,43 @@ def harness(ctx, c):
         ctx.sample({"case": c})
 
 
+def _dtype_problems():
+    import porepy as pp
+
+    mo = pp.matrix_operations
+    blocks = [np.array([[1, 3], [4, 2]]), np.array([[2]]), np.array([[2, 0, 1], [1, 3, 0], [0, 1, 4]])]
+    n = sum(b.shape[0] for b in blocks)
+    A = np.zeros((n, n), dtype=np.int64)
+    o = 0
+    for b in blocks:
+        A[o:o + b.shape[0], o:o + b.shape[0]] = b
+        o += b.shape[0]
+    sizes = np.array([b.shape[0] for b in blocks])
+    problems = []
+    for typ in (np.int64, np.int32, np.float32):
+        for fmt in ("csr", "csc"):
+            M = (sps.csr_matrix if fmt == "csr" else sps.csc_matrix)(A.astype(typ))
+            try:
+                iA = mo.invert_diagonal_blocks(M, sizes, method="python").toarray()
+            except Exception as e:  # noqa: BLE001
+                problems.append(f"{typ.__name__}/{fmt}: raised {type(e).__name__}: {e}")
+                continue
+            err = np.abs(A.astype(float) @ iA - np.eye(n)).max()
+            if err > (1e-5 if typ is np.float32 else 1e-10):
+                problems.append(f"{typ.__name__}/{fmt}/python: |A iA - I| = {err}")
+    return problems
+
+
+def h_dtype(ctx, c):
+    case = lambda conc: {"case": c}  # noqa: E731
+    ctx.check("integer-typed-matrices-are-inverted-like-floats", not _dtype_problems(), case)
+    ctx.reach("end")
+    ctx.sample({"case": c})
+
+
 def run_shard(ex, shard):
     for c in shard["cases"]:
-        ex.run(harness, label=str(c), args=(c,))
+        ex.run(h_dtype if c["kind"] == "dtype" else harness, label=str(c), args=(c,))
 
 
 # ---------------------------------------------------------------- real-code side
@@ -163,6 +199,9 @@ def replay_case(case):
 
     mo = pp.matrix_operations
     c = case["case"]
+    if c["kind"] == "dtype":
+        probs = _dtype_problems()
+        return (True, f"invert_diagonal_blocks on integer-typed input: {probs}") if probs else (False, "ok")
     A = np.array(case["A"], dtype=float)
     sizes = np.array(c["sizes"])
     o = 0
